@@ -274,6 +274,8 @@ class TapeRecorder(object):
         """
         _logger.info('Disabling recording')
         self.recording_enabled = False
+        # Interceptions are not captured from now on, a recording that is still in flight can no longer be completed
+        self.discard_recording()
 
     @property
     def in_recording_mode(self):
